@@ -63,11 +63,7 @@ func runC02(c *rules.Ctx) {
 	c.Returns(CP, 0, "poolmanagertypes.PoolI.GetId(poolmanager.Keeper.createPoolZeroLiquidityNoCreationFee(k,ctx,msg)#0) | 0", "the reported id is the created pool's", "/id")
 	// ---- taker fee arithmetic (poolmanager)
 	const PM = "x/poolmanager."
-	c.Returns(PM+"CalcTakerFeeExactIn", 1, "with:Amount(_, sdkmath.Int.Sub(tokenIn.Amount, sdkmath.LegacyDec.TruncateInt(_)))", "exact-in: fee = amount paid − amount after fee (exact difference)", "/fee")
-	c.Returns(PM+"CalcTakerFeeExactIn", 0, "with:Amount(_, sdkmath.LegacyDec.TruncateInt(sdkmath.LegacyDec.MulIntMut(sdkmath.LegacyDec.SubMut(sdkmath.LegacyOneDec(), takerFee), tokenIn.Amount)))", "exact-in: amount after fee = trunc((1 − fee) × amount)", "/after")
-	c.Returns(PM+"CalcTakerFeeExactOut", 1, "with:Amount(_, sdkmath.Int.Sub(sdkmath.LegacyDec.TruncateInt(sdkmath.LegacyDec.Ceil(_)), tokenIn.Amount))", "exact-out: fee = amount charged − pool amount (exact difference)", "/fee")
-	c.Returns(PM+"CalcTakerFeeExactOut", 0, "with:Amount(_, sdkmath.LegacyDec.TruncateInt(sdkmath.LegacyDec.Ceil(sdkmath.LegacyDec.Quo(sdkmath.Int.ToLegacyDec(tokenIn.Amount), sdkmath.LegacyDec.SubMut(sdkmath.LegacyOneDec(), takerFee)))))", "exact-out: amount charged = ceil(pool amount / (1 − fee))", "/after")
-	c.SameSubterm(PM+"CalcTakerFeeExactIn", "the fee is computed from the same after-fee amount that is returned")
+	takerFeeArithmeticRules(c)
 	c.CallArg(PM+"Keeper.chargeTakerFee", "poolmanagertypes.BankI.SendCoinsFromAccountToModule", 3, "\"taker_fee_collector\"", "the fee goes to the taker-fee collector module account")
 	c.CallArg(PM+"Keeper.SwapExactAmountIn", "poolmanagertypes.PoolModuleI.SwapExactAmountIn", 4, "poolmanager.Keeper.chargeTakerFee(k,ctx,tokenIn,tokenOutDenom,sender,true)#0", "the pool module receives the after-fee coin, never the original")
 	// ---- writers
